@@ -19,6 +19,14 @@ All rules are phrased on roles and values, not on spelling:
 * state kept in instance attributes between calls is found by who writes it (any method but the constructor) and who reads
   it back (the read path), not by name; what it must satisfy is stated on the CFG of every method of the class - no path
   may move the underlying cursor and leave a cached rolling key behind (R6);
+* a method that looks behind the position for the key word must put the cursor back on every path and for every outcome of its
+  reads: `read(k)` moves the cursor by the number of bytes it returns, of which only 0 <= len <= k is known - the view may be
+  positioned at / beyond the end of the data, where the read comes up short.  The paths of such a method are walked once with
+  the position as a polynomial over <raw position> and one symbol per read (`_Cursor`): an absolute seek to a remembered
+  `tell()` restores it, relative moves must cancel with the *actual* length `len(<read result>)`, a backward seek that only
+  the read of the same nominal size brings back does not (R7).  The span rules (R1 header words, R1 scan iteration, R3 "which
+  word is fetched", R6 "read_nonce is not a movement") keep the reading "a read of k bytes returns k bytes" - they say which
+  bytes are looked at when they are there - and say so; what happens when they are not there is R7's;
 * a verdict is `violated` only when the construct was located and is expressed in the vocabulary of the rule; a
   polynomial with foreign atoms, a shape the rule does not understand, or a missing anchor construct gives `undecided`.
 
@@ -46,7 +54,9 @@ fixpoint rounds of the analysis over names/collections, not over inputs.
   length-preserving wrappers, L6 trackers, L7 give-back.
 * R3 (rolling key): 1 (resolved utils.xor / read_nonce, `bind_args`), 3 (reaching definitions of the key operand inside /
   outside the decode loop, chunk provenance; read_nonce as cursor typestate from the symbol <raw position>), 2 (`all_paths_pass`:
-  key updated on every iteration, after its use, before the next read), 6 (read size constant).  Lemmas: L1.
+  key updated on every iteration, after its use, before the next read), 6 (read size constant).  Lemmas: L1 in its complete-read
+  reading (L1c): "net cursor movement" is the statement for positions with the word before them available; movements under a
+  condition / through seek() results are taken from the path-wise walk of R7 run under that reading (`_complete_walk`).
 * R4 (detection): 1 (resolved callees, helpers of the module followed, argument binding, roles mapped through the single call
   site), 2 (dominance of the validation and the rewind; CFG specialised under "the MZ validation failed"; raise / fall-off
   exits), 3 (reaching definitions of the returned view; def-use provenance of the candidate collection; range arguments /
@@ -56,17 +66,39 @@ fixpoint rounds of the analysis over names/collections, not over inputs.
   augmented / item stores, in-place mutation vs loads on the read path; resolved `self.m()` callees; role "rolling key" = the
   attribute flows into a value returned by read_nonce() or into the key operand of the decode step), 3 (reaching definitions of
   the stored value and of the locals it travels through - the def-use hops of a whole word read at the cursor / a read_nonce()
-  result; read_nonce's own seek/read as cursor typestate from the symbol <raw position>: they cancel), 2 (CFG reachability with
+  result; read_nonce's own seek/read as cursor typestate from the symbol <raw position>: they cancel under L1c), 2 (CFG reachability with
   the stores as barriers: ENTRY -> movement -> EXIT, store -> movement -> EXIT, definition -> movement -> use; a read bound to a
   local is a movement under the named assumption "the chunk just read is non-empty"; dominating `is None` tests), 5 (None / not
   None of the cached value).  Lemma: L9.  Attributes in other roles (remembered position, buffer), caches validated where they
-  are used, and stored values other than constants / whole words are undecided.
+  are used, and stored values other than constants / whole words are undecided.  "read_nonce() is not a movement" (`_net_zero`) is
+  taken under L1c; that it holds for short reads as well is R7's obligation (assume-guarantee between the two rules).
+* R7 (position-preserving helpers: read_nonce(), whatever method the first key of the decode step comes from, and other methods
+  outside the io interface that both seek and read the underlying file): 1 (roles: key operand of the resolved utils.xor in
+  read() -> reaching definitions -> resolved `self.m()` callee; receiver with origin `self.fh`; methods of the class called from
+  the subject are walked in place with `bind_args`), 3 (path-wise value flow over the structured statements, every path once:
+  position / tell() results / len(<read result>) / offsets as polynomials over <raw position>, <end of file> and one symbol
+  <len i> per read; exception edges from the seeks that may raise into the handlers of the enclosing try, `finally` on every
+  outcome), 4 (interval domain for <len i>: [0, k] for `read(k)`, [0, inf) otherwise; tests of `len(<read result>)` / truthiness
+  of a read result against constants refine the interval on the two branch edges, a one-point interval pins the symbol; flags
+  are replaced by the test they were bound to; linear range of an offset decides "this relative seek goes forwards"), 2 (tests
+  that become constant select the branch; position-against-header tests say nothing about the end of the file and are followed
+  on both edges; any other test on a read result / the position makes the path `opaque` -> undecided instead of violated).
+  No loop that moves the file is entered, no read length is enumerated.  Lemmas: L1, L10.
 * R5: the scanner obligations of rules/c15.py (`scanner_obligations`), imported unchanged - see that module: structural
   shape, interval abstract interpretation `absint.Interp`, polynomials, CFG (devices 1-4).
 
 Lemmas / library model relied on (also listed in `rep.trusted_base`):
-  L1  io cursor typestate: after `seek(p, SEEK_SET)` the position is p, after `seek(d, SEEK_CUR)` it is pos + d, `tell()`
-      returns pos, `read(k)` (k >= 0 a constant of the code, no short read) returns raw[pos : pos + k] and leaves pos + k.
+  L1  io cursor typestate: after `seek(p, SEEK_SET)` the position is p, after `seek(d, SEEK_CUR)` it is pos + d (any position
+      >= 0 is legal, also beyond the end), after `seek(d, SEEK_END)` it is <end of file> + d, `tell()` returns pos, `seek` returns
+      the new position; `read(k)` returns raw[pos : pos + j] for some 0 <= j <= k and leaves pos + j = pos + len(result); j == k
+      when k bytes are available at pos.
+  L1c the complete-read reading of L1 used by the span rules (R1, R3, R6 `_net_zero`): `read(k)`, k >= 0 a constant of the code,
+      returns raw[pos : pos + k] and leaves pos + k.  Justified where it is used: the two header words exist in every XorEncoded
+      payload (premise of the property; a file without them is not in its domain); the two words of a scan iteration are only
+      used behind the length check `len(nonce) != 4 or len(size) != 4 -> break` of iter_nonce_offsets (present in the code, not
+      verified by R1 - listed under not_decided) and every iteration starts with an absolute seek; for read_nonce it is the case
+      "the word before the position is there", the other case being R7.  R2's accounting never uses a nominal size: it counts
+      `len()` of what was actually read.
   L2  `x[lo:hi]` of the span (s, k) with constants 0 <= lo <= hi <= k is the span (s + lo, hi - lo) (slice semantics of bytes).
   L3  u32le(a) ^ u32le(b) == u32le(xor(a, b)) for 4-byte words: the unsigned little-endian decode maps bit j of byte i to
       bit 8*i + j (a bijection of bit positions) and XOR is bitwise; "<I"/"<L", int.from_bytes(.., "little", signed=False) and
@@ -85,12 +117,18 @@ Lemmas / library model relied on (also listed in `rep.trusted_base`):
       contents being arbitrary - neither is the key of any other position.  A key kept in an attribute for a later call is
       therefore right only if the underlying cursor has not moved since the word was read / since it was stored, or a constant
       ("nothing cached") has been stored since.
+  L10 a seek that raises leaves the position unchanged; a relative seek by d >= 0 and an absolute seek to a position the cursor
+      has had (or beyond it) do not raise; reads of the underlying file do not raise (I/O faults are outside the quantifier of
+      the property).  For integers 0 <= j <= k: `-k + j == 0` iff j == k, so a backward seek by k followed by `read(k)` is
+      back at the start only for a complete read; `-k + j + (k - j) == 0` for every j.
 """
 
 from __future__ import annotations
 
 import ast
+import math
 import struct as _struct
+from fractions import Fraction
 from typing import Dict, List, Optional, Tuple
 
 from csverif.absint import SymPoly, sympoly
@@ -527,12 +565,24 @@ def run(ctx):
         "underlying file is the only state carried from one call to the next - an attribute written outside the constructor and "
         "read back on the read path is either a memo of the constructor's data, or a cached rolling key that every movement of "
         "the underlying cursor resets or re-establishes (who-writes / who-reads over the methods of the class, CFG reachability "
-        "with the stores as barriers, def-use hops of the stored word), or it is reported as undecided."
+        "with the stores as barriers, def-use hops of the stored word), or it is reported as undecided; the methods that look behind the "
+        "position for the key word (read_nonce and whatever the first key of the decode step comes from) leave the underlying cursor where it was "
+        "on every path whatever their reads return (path-wise symbolic cursor: the position as a polynomial over the entry position and one "
+        "symbol len(<read>) in [0, nominal size] per read; absolute restore to a remembered tell() or relative moves that cancel with the "
+        "actual length; a backward seek compensated only by a read of the same nominal size is a violation - the read is short at / beyond "
+        "the end of the data)."
     )
     rep.not_decided = [
         "plaintext equality for all seek/read histories",
         "most_common ordering of candidates",
-        "short reads of the header words / OSError paths of read_nonce (the cursor typestate assumes reads of k bytes return k bytes)",
+        "short reads of the two header words in __init__ (a XorEncoded payload has them: premise of the property) and of the two words of a scan "
+        "iteration of iter_nonce_offsets (the code breaks out of the scan on a short read; that check is not verified by R1): the span rules read "
+        "`read(k)` as returning k bytes; short reads in read_nonce ARE decided (R7)",
+        "I/O errors raised by read() of the underlying file (R7: reads do not raise, seeks may); relative seeks are taken to move by exactly their "
+        "offset (an in-memory stream that clamps a relative seek at 0 instead of raising only differs for raw positions below the look-behind "
+        "distance, i.e. before the header - not a position of the view)",
+        "methods outside the io interface that seek and read the underlying file without being (helpers of) a key fetcher or of read(): whether they "
+        "are meant to keep the position is not known - discharged when they do, undecided otherwise; loops that move the file inside a key fetcher: undecided",
         "seek() forms in which a test that matters does not become constant under whence == SEEK_SET/SEEK_CUR/SEEK_END, cursor "
         "movements under a condition in __init__/read_nonce/the scan iteration, accumulators other than bytes/list/stream/counter: undecided",
         "state carried across calls other than a cached rolling key (remembered positions, read-ahead buffers), caches that are validated "
@@ -542,7 +592,12 @@ def run(ctx):
     rep.trusted_base = [
         "CPython ast", "networkx dominators", "SymPoly normal form",
         "io protocol: whence vocabulary SEEK_SET=0, SEEK_CUR=1, SEEK_END=2; seek(p, SET) -> p, seek(d, CUR) -> pos + d, "
-        "read(k) returns raw[pos : pos + k] and leaves pos + k (L1); x[lo:hi] of a span (s, k), 0 <= lo <= hi <= k, is (s + lo, hi - lo) (L2)",
+        "seek(d, END) -> <end of file> + d, positions beyond the end are legal, seek returns the new position; read(k) returns raw[pos : pos + j], "
+        "0 <= j <= k, and leaves pos + j (L1); the span rules R1/R3/R6 use the complete-read reading j == k (L1c: header words exist by the premise of "
+        "the property, scan words are used behind the code's own length check, read_nonce's short reads are R7's); x[lo:hi] of a span (s, k), "
+        "0 <= lo <= hi <= k, is (s + lo, hi - lo) (L2)",
+        "lemma L10: a seek that raises leaves the position unchanged; relative seeks by d >= 0 and absolute seeks to a position the cursor has had do not "
+        "raise; reads of the underlying file do not raise; for 0 <= j <= k: -k + j == 0 iff j == k, and -k + j + (k - j) == 0 for every j",
         "lemma L3: u32le(a) ^ u32le(b) == u32le(xor(a, b)) for 4-byte words (little-endian unsigned decode is a bijection of bit "
         "positions, XOR is bitwise); '<I'/'<L', int.from_bytes(.., 'little', signed=False), utils.unpack(size=4, little, unsigned) are that decode",
         "lemma L4: over the integers a < b iff a - b + 1 <= 0 (branch edges as linear facts)",
@@ -562,6 +617,7 @@ def run(ctx):
     r3(ctx)
     r4(ctx)
     r6(ctx)
+    r7(ctx)
     # automatic detection relies on the marker scan: the scanner obligations of C15 are necessary conditions here
     from rules import c15
 
@@ -1637,6 +1693,52 @@ def r3(ctx):
     _r3_read_nonce(ctx)
 
 
+def _nominal_len(ctx, f):
+    """special(): `len(x)` of a local whose every definition is a read of k bytes of the underlying file (k a constant of the
+    code) or a bytes constant of k bytes is k - under the reading "a read of k bytes returns k bytes" (L1, complete reads)
+    that the span rules R1/R3 work with; the unconditional statement about the cursor is R7's."""
+    fn = f.node
+
+    def width(v):
+        v = strip_cast(v) if v is not None else None
+        if isinstance(v, ast.Call) and isinstance(v.func, ast.Attribute) and v.func.attr == "read" and _is_raw(fn, v.func.value) and v.args:
+            k = _const(ctx, f, v.args[0])
+            return k if _is_int(k) and k >= 0 else None
+        c = _const(ctx, f, v) if v is not None else None
+        return len(c) if isinstance(c, bytes) else None
+
+    def sp(x):
+        if isinstance(x, ast.Call) and dotted(x.func) == "len" and len(x.args) == 1 and not x.keywords:
+            a = strip_cast(x.args[0])
+            if isinstance(a, ast.Name) and a.id not in params(fn):
+                ws = {width(v) for _s, v in reaching_defs(ctx, f, a.id, x)}  # flow-sensitive: the definitions that reach this use
+                if len(ws) == 1 and None not in ws:
+                    return SymPoly.const(ws.pop())
+            elif isinstance(a, ast.Call):
+                w = width(a)
+                if w is not None:
+                    return SymPoly.const(w)
+        return None
+
+    return sp
+
+
+def _complete_walk(ctx, m):
+    """(final position | None, {id(read): (start, len)}, problem | None) like `_simulate`, from the path-wise cursor walk of
+    R7 under the reading "every read returns its nominal size": conditional statements are followed (tests on the length of
+    a read result are constant under that reading); the paths that do not pass an exception handler must agree."""
+    cur = _Cursor(ctx, m, complete=True)
+    exits = [x for x in cur.run() if not x.handler]
+    if cur.problem is not None or not exits:
+        return None, {}, cur.problem or "no normal exit"
+    if any(len(v) != 1 for v in cur.spans.values()):
+        return None, {}, "a read of the underlying file starts at different positions on different paths"
+    ends = {repr(x.pos): x.pos for x in exits}
+    if len(ends) != 1 or None in ends.values():
+        return None, {}, "the paths leave the cursor at different / unknown positions"
+    return list(ends.values())[0], {k: next(iter(v)) for k, v in cur.spans.items()}, None
+
+
 def _r3_read_nonce(ctx):
     rn = ctx.repo.func(f"{CLS}.read_nonce")
     fn = rn.node
@@ -1644,16 +1746,21 @@ def _r3_read_nonce(ctx):
     posv = {st.targets[0].id for st in statements(fn) if isinstance(st, ast.Assign) and len(st.targets) == 1 and isinstance(st.targets[0], ast.Name)
             and _raw_tell_special(rn)(strip_cast(st.value)) is not None}
     tell_sp = _raw_tell_special(rn)
+    len_sp = _nominal_len(ctx, rn)
 
     def sp(x):
         if isinstance(x, ast.Name) and x.id in posv:
             return POS
-        return tell_sp(x)
+        return tell_sp(x) or len_sp(x)
 
     fv = FuncView.of(fn)
     calls = [c for c in fn_calls(fn) if fv.enclosing(c, (ast.ExceptHandler,)) is None]
     in_handler = [c for c in fn_calls(fn) if fv.enclosing(c, (ast.ExceptHandler,)) is not None and isinstance(c.func, ast.Attribute) and _is_raw(fn, c.func.value) and c.func.attr in ("seek", "read")]
     pos, spans, problem = _simulate(ctx, rn, calls, POS, lambda e: _poly(ctx, rn, e, sp, stop=frozenset(posv)))
+    if (problem is not None or _verdict(pos, POS) == "unknown") and not in_handler:
+        alt = _complete_walk(ctx, rn)  # conditional movements, values returned by seek(): followed path-wise
+        if alt[2] is None:
+            pos, spans, problem = alt
     t1, t2 = "previous ciphertext word / initial nonce", "net cursor movement"
     if problem is not None or in_handler or not spans:
         why = problem or ("the underlying file is also moved in an exception handler" if in_handler else "read_nonce does not read from the underlying file")
@@ -1666,7 +1773,8 @@ def _r3_read_nonce(ctx):
     _emit(ctx, "R3", "AGREE", rn, t1, v,
           "reads the 4 bytes before the position; uses initial_nonce in the first word",
           f"reads {[f'raw[{s[0]} : +{s[1]}]' for s in spans.values()]}; required the 4 bytes before the position={bool(prev)}; uses initial_nonce in the first word={bool(uses)}")
-    _emit(ctx, "R3", "CURSOR", rn, t2, _verdict(pos, POS), "read_nonce leaves the cursor where it was", f"read_nonce leaves the cursor at {pos}; required: where it was")
+    _emit(ctx, "R3", "CURSOR", rn, t2, _verdict(pos, POS), "with the word before the position available (reads return their nominal size) read_nonce leaves the cursor where it was; "
+          "for short reads see R7", f"even when every read returns its nominal size read_nonce leaves the cursor at {pos}; required: where it was")
 
 
 # ============================================================================================== R6: state carried across calls
@@ -1823,10 +1931,16 @@ def _net_zero(ctx, m) -> bool:
     tell_sp = _raw_tell_special(m)
     posv = {st.targets[0].id for st in statements(fn) if isinstance(st, ast.Assign) and len(st.targets) == 1 and isinstance(st.targets[0], ast.Name) and tell_sp(strip_cast(st.value)) is not None}
 
+    len_sp = _nominal_len(ctx, m)
+
     def sp(x):
-        return POS if isinstance(x, ast.Name) and x.id in posv else tell_sp(x)
+        return POS if isinstance(x, ast.Name) and x.id in posv else (tell_sp(x) or len_sp(x))
 
     pos, _spans, problem = _simulate(ctx, m, fn_calls(fn), POS, lambda e: _poly(ctx, m, e, sp, stop=frozenset(posv)))
+    if problem is not None or _verdict(pos, POS) == "unknown":
+        alt = _complete_walk(ctx, m)
+        if alt[2] is None:
+            pos, _spans, problem = alt
     return problem is None and pos == POS
 
 
@@ -2051,6 +2165,754 @@ def r6(ctx):
                 if verdict == v and m.fq not in seen:
                     seen.add(m.fq)
                     _emit(ctx, "R6", "CURSOR", m, text, verdict, detail, detail, node)
+
+
+# ============================================================================================== R7: position-preserving helpers
+# A read-only file has one piece of state that the caller can see: its position, which here is the cursor of the underlying
+# file.  The view fetches the key word of a position by looking *behind* it; whatever it does to get there, it must put the
+# cursor back - on every path, for every outcome of the reads involved.  `read(k)` moves the cursor by the number of bytes it
+# returns, which is only known to lie in [0, k]: it is k when k bytes are available, and nothing guarantees that once the view
+# may be positioned at / beyond the end of the data (a legal position of a file).
+END = SymPoly.atom("<end of file>")
+_PASSIVE = ("tell", "seekable", "readable", "writable", "fileno", "isatty", "flush", "getbuffer", "getvalue")
+_IO_API = ("__init__", "__repr__", "__str__", "__del__", "__enter__", "__exit__", "__iter__", "__next__", "close", "seek", "read", "read1", "readall", "readinto",
+           "readinto1", "readline", "readlines", "write", "writelines", "truncate", "tell")
+
+
+def _psubst(p: Optional[SymPoly], sym: str, c) -> Optional[SymPoly]:
+    """p with the atom `sym` replaced by the constant c."""
+    if p is None or sym not in p.atoms():
+        return p
+    out = SymPoly()
+    for k, v in p.terms.items():
+        n = sum(1 for a in k if a == sym)
+        out = out + SymPoly({tuple(a for a in k if a != sym): v * (Fraction(c) ** n)})
+    return out
+
+
+class _CS:
+    """One path of the cursor walk: the position polynomial (None: not known), the values / byte lengths of locals, the
+    intervals of the read-length symbols, the positions the cursor has had, what the path assumed."""
+
+    __slots__ = ("pos", "env", "lens", "bounds", "derived", "valid", "calls", "callens", "opaque", "handler", "trace", "ret", "lost", "pins", "flags")
+
+    def __init__(self):
+        self.pos: Optional[SymPoly] = None
+        self.env: Dict[str, Optional[SymPoly]] = {}
+        self.lens: Dict[str, SymPoly] = {}
+        self.bounds: Dict[str, Tuple[int, Optional[int]]] = {}
+        self.derived: set = set()
+        self.valid: List[SymPoly] = []
+        self.calls: Dict[int, Optional[SymPoly]] = {}
+        self.callens: Dict[int, SymPoly] = {}
+        self.opaque: Optional[str] = None
+        self.handler = False
+        self.trace: Tuple[str, ...] = ()
+        self.ret: Optional[SymPoly] = None
+        self.lost: Optional[str] = None
+        self.pins: Dict[str, int] = {}
+        self.flags: Dict[str, ast.AST] = {}  # local -> the boolean expression it was bound to (operands not rebound since)
+
+    def copy(self) -> "_CS":
+        c = _CS()
+        c.pos, c.env, c.lens, c.bounds, c.derived, c.valid = self.pos, dict(self.env), dict(self.lens), dict(self.bounds), set(self.derived), list(self.valid)
+        c.calls, c.callens, c.opaque, c.handler, c.trace, c.ret, c.lost = dict(self.calls), dict(self.callens), self.opaque, self.handler, self.trace, self.ret, self.lost
+        c.pins, c.flags = dict(self.pins), dict(self.flags)
+        return c
+
+    def key(self):
+        return (repr(self.pos), tuple(sorted((k, repr(v)) for k, v in self.env.items())), tuple(sorted((k, repr(v)) for k, v in self.lens.items())),
+                tuple(sorted(self.bounds.items())), tuple(sorted(self.derived)), self.opaque, self.handler, repr(self.ret), self.lost, tuple(sorted(self.flags)))
+
+    def pin(self, sym: str, c: int):
+        """the read-length symbol is known to be c on this path"""
+        self.pos = _psubst(self.pos, sym, c)
+        self.ret = _psubst(self.ret, sym, c)
+        self.env = {k: _psubst(v, sym, c) for k, v in self.env.items()}
+        self.lens = {k: _psubst(v, sym, c) for k, v in self.lens.items()}
+        self.calls = {k: _psubst(v, sym, c) for k, v in self.calls.items()}
+        self.callens = {k: _psubst(v, sym, c) for k, v in self.callens.items()}
+        self.valid = [_psubst(v, sym, c) for v in self.valid]
+        self.bounds.pop(sym, None)
+        self.pins[sym] = c
+
+
+class _Cursor:
+    """Path-wise symbolic cursor typestate of one method of the view (devices 2-4 of the technique policy): the structured
+    statements are walked once, every path separately; the position is a polynomial over the symbol <raw position> (the
+    cursor at entry) and one symbol per read of the underlying file, `<len k>` = the number of bytes that read returned, of
+    which only 0 <= <len k> <= <nominal size> is known (interval domain); `tell()` results, `len(<read result>)` and
+    arithmetic on them are polynomials over the same symbols; tests on `len(<read result>)` against constants refine the
+    interval on the two branch edges (a one-point interval pins the symbol), tests that compare the position with the header
+    length say nothing about the end of the file and are followed on both edges, any other test that looks at a read result
+    or at the position marks the path as `opaque`.  A seek that may raise (a relative seek not known to be forwards, an
+    absolute seek to something that is not a position the cursor has had) enters the handlers of the enclosing try with the
+    state before it; reads are assumed not to raise.  Calls of other methods of the class that touch the underlying file
+    are walked in place with their arguments bound.  No loop that moves the file is entered (problem -> undecided).
+    `complete=True` is the reading "every read returns its nominal size" (L1 as R1/R3 use it)."""
+
+    MAXPATHS = 96
+
+    def __init__(self, ctx, m, complete: bool = False, depth: int = 0, counter=None, stack=()):
+        self.ctx, self.m, self.fn = ctx, m, m.node
+        self.complete = complete
+        self.depth = depth
+        self.counter = counter if counter is not None else [0]
+        self.stack = tuple(stack) + (m.fq,)
+        self.problem: Optional[str] = None
+        self.collectors: List[List[_CS]] = []
+        self.escaped = False
+        self.spans: Dict[int, set] = {}
+        self.symdesc: Dict[str, str] = {}
+        self.backward: List[ast.Call] = []
+        self._touch: Dict[int, bool] = {}
+
+    # ---- values
+    def poly(self, e, s: _CS) -> Optional[SymPoly]:
+        if e is None:
+            return None
+
+        def special(x):
+            if isinstance(x, ast.Name):
+                if x.id in s.env:
+                    v = s.env[x.id]
+                    return v if v is not None else SymPoly.atom(f"<{x.id}?>")
+                return None
+            if isinstance(x, ast.Call):
+                if id(x) in s.calls:
+                    v = s.calls[id(x)]
+                    return v if v is not None else SymPoly.atom(f"<{src(x)[:30]}?>")
+                if dotted(x.func) == "len" and len(x.args) == 1 and not x.keywords:
+                    return self.len_of(x.args[0], s)
+                if isinstance(x.func, ast.Attribute) and _is_raw(self.fn, x.func.value):
+                    return SymPoly.atom(f"<{src(x)[:30]}?>")
+            return None
+
+        return _poly(self.ctx, self.m, e, special)
+
+    def len_of(self, e, s: _CS) -> Optional[SymPoly]:
+        e = strip_cast(e)
+        if isinstance(e, ast.Name):
+            return s.lens.get(e.id)
+        if isinstance(e, ast.Call):
+            if id(e) in s.callens:
+                return s.callens[id(e)]
+            if dotted(e.func) in ("bytes", "bytearray", "memoryview") and len(e.args) == 1 and not e.keywords:
+                return self.len_of(e.args[0], s)
+            return None
+        c = _const(self.ctx, self.m, e)
+        return SymPoly.const(len(c)) if isinstance(c, (bytes, str)) else None
+
+    def const(self, e, s: _CS):
+        p = self.poly(e, s)
+        c = p.const_value() if p is not None else None
+        return int(c) if c is not None and c.denominator == 1 else None
+
+    @staticmethod
+    def rng(p: SymPoly, bounds) -> Optional[Tuple[Optional[Fraction], Optional[Fraction]]]:
+        """interval of a polynomial that is linear in the bounded read-length symbols (None: not of that form)"""
+        lo: Optional[Fraction] = Fraction(0)
+        hi: Optional[Fraction] = Fraction(0)
+        for k, v in p.terms.items():
+            if k == ():
+                lo = None if lo is None else lo + v
+                hi = None if hi is None else hi + v
+                continue
+            if len(k) != 1 or k[0] not in bounds:
+                return None
+            a, b = bounds[k[0]]
+            if v > 0:
+                lo = None if lo is None else lo + v * a
+                hi = None if hi is None or b is None else hi + v * b
+            else:
+                lo = None if lo is None or b is None else lo + v * b
+                hi = None if hi is None else hi + v * a
+        return lo, hi
+
+    def nonneg(self, p: Optional[SymPoly], s: _CS) -> bool:
+        r = self.rng(p, s.bounds) if p is not None else None
+        return r is not None and r[0] is not None and r[0] >= 0
+
+    def tracked(self, e, s: _CS) -> bool:
+        """does the expression look at a read result, at the position or at the underlying file?"""
+        syms = set(s.bounds) | POS.atoms() | END.atoms()
+        for x in ast.walk(e):
+            if isinstance(x, ast.Name) and isinstance(x.ctx, ast.Load):
+                if x.id in s.lens or x.id in s.derived:
+                    return True
+                v = s.env.get(x.id)
+                if v is not None and v.atoms() & syms:
+                    return True
+            elif isinstance(x, ast.Call):
+                if id(x) in s.calls or id(x) in s.callens or (isinstance(x.func, ast.Attribute) and _is_raw(self.fn, x.func.value)):
+                    return True
+        return False
+
+    # ---- effects
+    def touches(self, callee, seen=()) -> bool:
+        """the method (or a method of the class it calls) calls the underlying file"""
+        if callee.fq in seen:
+            return True
+        for c in fn_calls(callee.node):
+            if isinstance(c.func, ast.Attribute) and _is_raw(callee.node, c.func.value):
+                return True
+            c2 = _self_callee(self.ctx, callee, c)
+            if c2 is not None and self.touches(c2, tuple(seen) + (callee.fq,)):
+                return True
+        return False
+
+    def effect_calls(self, e) -> List[ast.Call]:
+        """the calls of an expression that touch the underlying file, in evaluation order (operands before the call)"""
+        out: List[ast.Call] = []
+
+        def go(n):
+            if isinstance(n, ast.Lambda):
+                return
+            for ch in ast.iter_child_nodes(n):
+                go(ch)
+            if isinstance(n, ast.Call):
+                if isinstance(n.func, ast.Attribute) and _is_raw(self.fn, n.func.value):
+                    out.append(n)
+                else:
+                    callee = _self_callee(self.ctx, self.m, n)
+                    if callee is not None:
+                        if id(n) not in self._touch:
+                            self._touch[id(n)] = self.touches(callee)
+                        if self._touch[id(n)]:
+                            out.append(n)
+
+        if e is not None:
+            go(e)
+        return out
+
+    def moves(self, node) -> bool:
+        return any(not (isinstance(c.func, ast.Attribute) and _is_raw(self.fn, c.func.value) and c.func.attr in _PASSIVE) for c in self.effect_calls(node))
+
+    def new_symbol(self, s: _CS, call, k) -> SymPoly:
+        self.counter[0] += 1
+        sym = f"<len {self.counter[0]}>"
+        self.symdesc[sym] = f"len(`{src(call)}`)"
+        if self.complete and k is not None:
+            return SymPoly.const(k)
+        if k == 0:
+            return SymPoly.const(0)
+        s.bounds[sym] = (0, k)
+        return SymPoly.atom(sym)
+
+    def may_raise(self, s: _CS):
+        if self.collectors:
+            self.collectors[-1].append(s.copy())
+        else:
+            self.escaped = True
+
+    def apply_raw(self, c: ast.Call, s: _CS) -> List[_CS]:
+        a = c.func.attr
+        if a == "tell" and not c.args:
+            s.calls[id(c)] = s.pos
+            return [s]
+        if a in _PASSIVE:
+            return [s]
+        if a == "seek":
+            off, wh = _seek_args(c)
+            w = 0 if wh is None else self.const(wh, s)
+            p = self.poly(off, s) if off is not None else None
+            if w == 1:
+                if not self.nonneg(p, s):
+                    self.may_raise(s)
+                    r = self.rng(p, s.bounds) if p is not None else None
+                    if r is not None and r[1] is not None and r[1] < 0:
+                        self.backward.append(c)
+                new = s.pos + p if s.pos is not None and p is not None else None
+            elif w == 0:
+                if p is None or not any(p == v or self.nonneg(p - v, s) for v in s.valid):
+                    self.may_raise(s)
+                new = p
+            elif w == 2:
+                if not self.nonneg(p, s):
+                    self.may_raise(s)
+                new = END + p if p is not None else None
+            else:
+                self.may_raise(s)
+                new = None
+            if new is None:
+                s.lost = f"`{src(c)}` moves the cursor to a position that cannot be expressed"
+            s.pos = new
+            s.calls[id(c)] = new
+            s.trace += (src(c),)
+            if new is not None:
+                s.valid.append(new)
+            return [s]
+        if a in _MOVERS:
+            k = self.const(c.args[0], s) if a in ("read", "read1") and c.args else None
+            if k is not None and k < 0:
+                k = None
+            L = self.new_symbol(s, c, k)
+            if s.pos is not None:
+                if k is not None:
+                    self.spans.setdefault(id(c), set()).add((s.pos, k))
+                s.pos = s.pos + L
+                s.valid.append(s.pos)
+            if a in ("read", "read1", "readall", "readline"):
+                s.callens[id(c)] = L
+            s.trace += (src(c),)
+            return [s]
+        return [s]
+
+    def apply_callee(self, c: ast.Call, s: _CS) -> List[_CS]:
+        callee = _self_callee(self.ctx, self.m, c)
+        name = _mname(callee)
+        if self.depth >= 2 or callee.fq in self.stack:
+            s.pos, s.lost = None, f"`{src(c)}` is not followed (call depth)"
+            s.calls[id(c)] = None
+            return [s]
+        sub = _Cursor(self.ctx, callee, self.complete, self.depth + 1, self.counter, self.stack)
+        s0 = _CS()
+        s0.pos, s0.bounds, s0.valid, s0.opaque, s0.lost, s0.pins = s.pos, dict(s.bounds), list(s.valid), s.opaque, s.lost, dict(s.pins)
+        for p_, a_ in bind_args(c, callee.node, skip_self=True).items():
+            s0.env[p_] = self.poly(a_, s) if a_ is not None else None
+            L = self.len_of(a_, s) if a_ is not None else None
+            if L is not None:
+                s0.lens[p_] = L
+            if a_ is not None and self.tracked(a_, s):
+                s0.derived.add(p_)
+        exits = sub.run(s0)
+        self.symdesc.update(sub.symdesc)
+        self.backward += sub.backward
+        if sub.escaped:
+            e = s.copy()
+            e.pos, e.lost = None, f"an exception raised inside `{src(c)}`"
+            self.may_raise(e)
+        if sub.problem is not None or not exits:
+            s.pos, s.lost = None, f"{name}(): {sub.problem or 'no normal exit'}"
+            s.calls[id(c)] = None
+            s.trace += (src(c),)
+            return [s]
+        out = []
+        for x in exits:
+            t = s.copy()
+            for sym, cv in x.pins.items():  # read lengths pinned by a test inside the callee are pinned for the caller too
+                if sym not in t.pins:
+                    t.pin(sym, cv)
+            t.pos, t.bounds, t.valid, t.opaque, t.lost = x.pos, dict(x.bounds), list(x.valid), x.opaque, x.lost
+            t.calls[id(c)] = x.ret
+            t.trace += (f"{name}()",) if x.trace else ()
+            out.append(t)
+        return out
+
+    def effects(self, e, states: List[_CS]) -> List[_CS]:
+        calls = self.effect_calls(e)
+        if not calls:
+            return states
+        fv = FuncView.of(self.fn)
+        for c in calls:
+            for anc in fv.ancestors(c):
+                if isinstance(anc, ast.stmt):
+                    break
+                if isinstance(anc, (ast.IfExp, ast.BoolOp, ast.ListComp, ast.SetComp, ast.DictComp, ast.GeneratorExp, ast.Lambda)):
+                    if self.moves(c):
+                        self.problem = f"`{src(c)}` is evaluated conditionally / repeatedly inside an expression"
+                        return []
+        for c in calls:
+            nxt: List[_CS] = []
+            for s in states:
+                nxt += self.apply_raw(c, s) if (isinstance(c.func, ast.Attribute) and _is_raw(self.fn, c.func.value)) else self.apply_callee(c, s)
+            states = nxt
+        return states
+
+    # ---- bindings
+    def unflag(self, name: str, s: _CS):
+        s.flags = {k: e for k, e in s.flags.items() if k != name and not any(isinstance(x, ast.Name) and x.id == name for x in ast.walk(e))}
+
+    def bind(self, name: str, value, s: _CS):
+        v = strip_cast(value) if value is not None else None
+        self.unflag(name, s)
+        if isinstance(v, (ast.Compare, ast.BoolOp)) or (isinstance(v, ast.UnaryOp) and isinstance(v.op, ast.Not)):
+            if not self.effect_calls(v) and not any(isinstance(x, ast.Name) and x.id == name for x in ast.walk(v)):
+                s.flags[name] = v
+        s.env[name] = self.poly(value, s) if value is not None else None
+        L = self.len_of(v, s) if v is not None else None
+        if L is not None:
+            s.lens[name] = L
+        else:
+            s.lens.pop(name, None)
+        if value is not None and self.tracked(value, s):
+            s.derived.add(name)
+        else:
+            s.derived.discard(name)
+
+    def kill(self, node, s: _CS):
+        for x in ast.walk(node):
+            if isinstance(x, ast.Name) and isinstance(x.ctx, (ast.Store, ast.Del)):
+                self.unflag(x.id, s)
+                if x.id in s.env or x.id in s.lens:
+                    s.derived.add(x.id)
+                s.env[x.id] = None
+                s.lens.pop(x.id, None)
+
+    # ---- tests
+    def branch(self, t, s: _CS) -> Tuple[List[_CS], List[_CS]]:
+        """(states on the true edge, states on the false edge)"""
+        if isinstance(t, ast.UnaryOp) and isinstance(t.op, ast.Not):
+            a, b = self.branch(t.operand, s)
+            return b, a
+        if isinstance(t, ast.BoolOp):
+            conj = isinstance(t.op, ast.And)
+            go, stop = [s], []
+            for v in t.values:
+                nxt = []
+                for x in go:
+                    a, b = self.branch(v, x)
+                    nxt += a if conj else b
+                    stop += b if conj else a
+                go = nxt
+            return (go, stop) if conj else (stop, go)
+        if isinstance(t, ast.Compare) and len(t.ops) == 1 and isinstance(t.ops[0], (ast.Lt, ast.LtE, ast.Gt, ast.GtE, ast.Eq, ast.NotEq)):
+            a, b = self.poly(t.left, s), self.poly(t.comparators[0], s)
+            if a is not None and b is not None:
+                r = self.compare(a - b, type(t.ops[0]), s)
+                if r is not None:
+                    return r
+        elif isinstance(t, ast.Name) and t.id in s.flags:
+            return self.branch(s.flags[t.id], s)  # a flag: the test it was bound to (its operands have not been rebound since)
+        elif not isinstance(t, ast.Compare):
+            L = self.len_of(t, s)
+            if L is not None:
+                r = self.compare(L, ast.Gt, s)  # truthiness of bytes: non-empty
+                if r is not None:
+                    return r
+            c = _c(t) if isinstance(t, ast.Constant) else None
+            if isinstance(t, ast.Constant):
+                return ([s], []) if c else ([], [s])
+        x, y = s, s.copy()
+        if self.tracked(t, s):
+            x.opaque = y.opaque = x.opaque or f"`{src(t)[:60]}`"
+        return [x], [y]
+
+    def compare(self, d: SymPoly, op, s: _CS) -> Optional[Tuple[List[_CS], List[_CS]]]:
+        """branch edges of `d <op> 0`; None: the comparison is not understood"""
+        holds = {ast.Lt: lambda v: v < 0, ast.LtE: lambda v: v <= 0, ast.Gt: lambda v: v > 0, ast.GtE: lambda v: v >= 0, ast.Eq: lambda v: v == 0, ast.NotEq: lambda v: v != 0}[op]
+        c = d.const_value()
+        if c is not None:
+            return ([s], []) if holds(c) else ([], [s])
+        pa = next(iter(POS.atoms()))
+        if d.atoms() <= (POS.atoms() | H.atoms() | set(s.bounds)) and (not (d.atoms() & set(s.bounds)) or [k for k in d.terms if pa in k] == [(pa,)]):
+            # a position against the header length says nothing about the end of the file; when the position is the one after a
+            # read (it contains a read length) the test constrains that length only relative to the entry position, which is
+            # arbitrary: for no outcome of the test is the read complete at every position - both edges are followed as they are
+            return [s], [s.copy()]
+        r = self.rng(d, s.bounds)
+        if r is None:
+            return None
+        lo, hi = r
+        # decided by the interval
+        if op is ast.Lt and hi is not None and hi < 0 or op is ast.LtE and hi is not None and hi <= 0 or op is ast.Gt and lo is not None and lo > 0 \
+                or op is ast.GtE and lo is not None and lo >= 0 or op is ast.NotEq and ((lo is not None and lo > 0) or (hi is not None and hi < 0)):
+            return [s], []
+        if op is ast.Lt and lo is not None and lo >= 0 or op is ast.LtE and lo is not None and lo > 0 or op is ast.Gt and hi is not None and hi <= 0 \
+                or op is ast.GtE and hi is not None and hi < 0 or op is ast.Eq and ((lo is not None and lo > 0) or (hi is not None and hi < 0)):
+            return [], [s]
+        syms = [k[0] for k in d.terms if k != ()]
+        if len(syms) != 1:
+            return None
+        sym, v, c0 = syms[0], d.terms[(syms[0],)], d.terms.get((), Fraction(0))
+        t = -c0 / v  # d <op> 0  <=>  sym <op'> t   (op mirrored when v < 0)
+        if v < 0:
+            op = {ast.Lt: ast.Gt, ast.LtE: ast.GtE, ast.Gt: ast.Lt, ast.GtE: ast.LtE}.get(op, op)
+        def refine(state: _CS, kind, neg: bool) -> Optional[_CS]:
+            a, b = state.bounds[sym]
+            if neg:
+                kind = {ast.Lt: ast.GtE, ast.LtE: ast.Gt, ast.Gt: ast.LtE, ast.GtE: ast.Lt, ast.Eq: ast.NotEq, ast.NotEq: ast.Eq}[kind]
+            if kind is ast.Lt:
+                b2 = math.ceil(t) - 1
+                b = b2 if b is None else min(b, b2)
+            elif kind is ast.LtE:
+                b2 = math.floor(t)
+                b = b2 if b is None else min(b, b2)
+            elif kind is ast.Gt:
+                a = max(a, math.floor(t) + 1)
+            elif kind is ast.GtE:
+                a = max(a, math.ceil(t))
+            elif kind is ast.Eq:
+                if t.denominator != 1:
+                    return None
+                a = max(a, int(t))
+                b = int(t) if b is None else min(b, int(t))
+            else:  # NotEq
+                if t.denominator == 1:
+                    if a == int(t):
+                        a += 1
+                    elif b is not None and b == int(t):
+                        b -= 1
+            if b is not None and a > b:
+                return None
+            state.bounds[sym] = (a, b)
+            if b is not None and a == b:
+                state.pin(sym, a)
+            return state
+
+        yes, no = refine(s.copy(), op, False), refine(s.copy(), op, True)
+        return ([yes] if yes is not None else []), ([no] if no is not None else [])
+
+    # ---- statements
+    def dedupe(self, states: List[_CS]) -> List[_CS]:
+        seen, out = set(), []
+        for s in states:
+            k = s.key()
+            if k not in seen:
+                seen.add(k)
+                out.append(s)
+        return out
+
+    def block(self, body, states: List[_CS]) -> List[Tuple[_CS, str]]:
+        live, done = list(states), []
+        for st in body:
+            nxt: List[_CS] = []
+            for s in live:
+                for s2, out in self.stmt(st, s):
+                    (nxt if out == "fall" else done).append(s2 if out == "fall" else (s2, out))
+                if self.problem is not None:
+                    return []
+            live = self.dedupe(nxt)
+            if len(live) + len(done) > self.MAXPATHS:
+                self.problem = "too many paths"
+                return []
+            if not live:
+                break
+        return [(s, "fall") for s in live] + done
+
+    def stmt(self, st, s: _CS) -> List[Tuple[_CS, str]]:
+        fall = lambda states: [(x, "fall") for x in states]  # noqa: E731
+        if isinstance(st, (ast.Pass, ast.Global, ast.Nonlocal, ast.Import, ast.ImportFrom, ast.FunctionDef, ast.AsyncFunctionDef, ast.ClassDef)):
+            return [(s, "fall")]
+        if isinstance(st, ast.Expr):
+            return fall(self.effects(st.value, [s]))
+        if isinstance(st, (ast.Assign, ast.AnnAssign)):
+            if st.value is None:
+                return [(s, "fall")]
+            targets = st.targets if isinstance(st, ast.Assign) else [st.target]
+            if any(self.effect_calls(t) for t in targets):
+                self.problem = f"`{src(st)[:60]}`: the underlying file is used inside an assignment target"
+                return []
+            out = self.effects(st.value, [s])
+            for x in out:
+                for t in targets:
+                    if isinstance(t, ast.Name):
+                        self.bind(t.id, st.value, x)
+                    else:
+                        self.kill(t, x)
+            return fall(out)
+        if isinstance(st, ast.AugAssign):
+            out = self.effects(st.value, [s])
+            for x in out:
+                if isinstance(st.target, ast.Name):
+                    nm = st.target.id
+                    self.unflag(nm, x)
+                    cur, d = x.env.get(nm), self.poly(st.value, x)
+                    Lc, Ld = x.lens.get(nm), self.len_of(st.value, x)
+                    tr = self.tracked(st.value, x)
+                    x.env[nm] = (cur + d if isinstance(st.op, ast.Add) else cur - d) if cur is not None and d is not None and isinstance(st.op, (ast.Add, ast.Sub)) else None
+                    if Lc is not None and Ld is not None and isinstance(st.op, ast.Add):
+                        x.lens[nm] = Lc + Ld
+                    else:
+                        x.lens.pop(nm, None)
+                    if tr:
+                        x.derived.add(nm)
+            return fall(out)
+        if isinstance(st, ast.Return):
+            out = self.effects(st.value, [s]) if st.value is not None else [s]
+            for x in out:
+                x.ret = self.poly(st.value, x) if st.value is not None else None
+            return [(x, "return") for x in out]
+        if isinstance(st, ast.Raise):
+            if self.moves(st):
+                self.problem = "the underlying file is moved inside a raise statement"
+                return []
+            return [(s, "raise")]
+        if isinstance(st, (ast.Break, ast.Continue)):
+            return [(s, "break" if isinstance(st, ast.Break) else "continue")]
+        if isinstance(st, (ast.Assert, ast.Delete)):
+            if self.moves(st):
+                self.problem = f"`{src(st)[:60]}` moves the underlying file"
+                return []
+            self.kill(st, s)
+            return [(s, "fall")]
+        if isinstance(st, ast.If):
+            out: List[Tuple[_CS, str]] = []
+            for x in self.effects(st.test, [s]):
+                yes, no = self.branch(st.test, x)
+                out += self.block(st.body, yes) if yes else []
+                out += (self.block(st.orelse, no) if st.orelse else fall(no)) if no else []
+            return out
+        if isinstance(st, ast.Try) or type(st).__name__ == "TryStar":
+            return self.do_try(st, s)
+        if isinstance(st, (ast.With, ast.AsyncWith)):
+            if any(self.effect_calls(i.context_expr) for i in st.items):
+                self.problem = "the underlying file is used as / inside a context manager"
+                return []
+            for i in st.items:
+                if i.optional_vars is not None:
+                    self.kill(i.optional_vars, s)
+            return self.block(st.body, [s])
+        if isinstance(st, (ast.For, ast.AsyncFor, ast.While)):
+            if self.moves(st):
+                self.problem = "a loop moves the underlying file: its net movement is not followed"
+                return []
+            self.kill(st, s)
+            out = [(s, "fall")]
+            if any(isinstance(x, ast.Return) for x in ast.walk(st)):
+                r = s.copy()
+                r.ret = None
+                out.append((r, "return"))
+            return out
+        if self.moves(st):
+            self.problem = f"`{src(st)[:60]}`: a statement of this kind that moves the underlying file is not followed"
+            return []
+        self.kill(st, s)
+        return [(s, "fall")]
+
+    def do_try(self, st, s: _CS) -> List[Tuple[_CS, str]]:
+        self.collectors.append([])
+        body = self.block(st.body, [s])
+        raised = self.collectors.pop()
+        if self.problem is not None:
+            return []
+        raised += [x for x, o in body if o == "raise"]
+        through = [x for x, o in body if o == "fall"]
+        results = [(x, o) for x, o in body if o not in ("fall", "raise")]
+        results += self.block(st.orelse, through) if st.orelse and through else [(x, "fall") for x in through]
+        if st.handlers:
+            for h in st.handlers:
+                hs = []
+                for x in self.dedupe(raised):
+                    y = x.copy()
+                    y.handler = True
+                    if h.name:
+                        y.env[h.name] = None
+                    hs.append(y)
+                results += self.block(h.body, hs) if hs else []
+        else:
+            results += [(x, "raise") for x in raised]
+        if self.problem is not None:
+            return []
+        if st.finalbody:
+            out = []
+            for x, o in results:
+                for y, o2 in self.block(st.finalbody, [x]):
+                    out.append((y, o if o2 == "fall" else o2))
+            results = out
+        return results
+
+    def run(self, s0: Optional[_CS] = None) -> List[_CS]:
+        """the states at the normal exits (return / falling off the end) of the method"""
+        if s0 is None:
+            s0 = _CS()
+            s0.pos = POS
+            s0.valid = [POS]
+        res = self.block(self.fn.body, [s0])
+        if self.problem is not None:
+            return []
+        return self.dedupe([x for x, o in res if o in ("fall", "return")])
+
+
+def _cursor_verdict(ctx, m) -> Tuple[str, str, Optional[ast.AST]]:
+    """('ok' | 'bad' | 'unknown', detail, node): is the net movement of the underlying cursor provably 0 on every path of
+    the method, whatever the reads return?"""
+    cur = _Cursor(ctx, m)
+    exits = cur.run()
+    node = cur.backward[0] if cur.backward else None
+    if cur.problem is not None:
+        return "unknown", cur.problem, node
+    if not exits:
+        return "unknown", "the method has no normal exit that can be followed", node
+    vocab = POS.atoms() | END.atoms() | H.atoms()
+    worst, notes = "ok", []
+    nmoves = 0
+    for x in exits:
+        how = " -> ".join(x.trace) or "no movement"
+        nmoves += bool(x.trace)
+        if x.pos is None:
+            v, why = "unknown", f"[{how}] {x.lost or 'the position is not known'} and the position is not restored absolutely afterwards"
+        else:
+            net = x.pos - POS
+            if not net.terms:
+                continue
+            syms = sorted(a for a in net.atoms() if a in cur.symdesc)
+            if not (net.atoms() <= (vocab | set(cur.symdesc))):
+                v, why = "unknown", f"[{how}] leaves the cursor at {x.pos}: not over the position, the header length and the read lengths only"
+            elif x.opaque is not None:
+                v, why = "unknown", f"[{how}] leaves the cursor at {x.pos} on a path that depends on the test {x.opaque}, which is not understood"
+            else:
+                v = "bad"
+                why = f"[{how}] leaves the cursor at {x.pos} instead of <raw position>" + (" (path through the exception handler)" if x.handler else "")
+                if syms:
+                    rng = {a: x.bounds.get(a, (0, None)) for a in syms}
+                    why += " where " + ", ".join(f"{a} = {cur.symdesc[a]} in [{rng[a][0]}, {rng[a][1] if rng[a][1] is not None else 'inf'}]" for a in syms) + ": a read moves the cursor by the number of bytes it returns, which is its nominal size " \
+                           "only when that many bytes are available - not when the view is positioned at / beyond the end of the data (seek(EOF + 2); read(5) returns b'' and tell() has moved)"
+        notes.append((v, why))
+        worst = _worst([worst, v])
+    if worst == "ok":
+        return "ok", (f"on each of the {len(exits)} path(s) the cursor ends at <raw position>, whatever the reads return" if nmoves else "the underlying file is not moved"), node
+    return worst, "; ".join(dict.fromkeys(w for v, w in notes if v == worst)), node
+
+
+def _key_fetchers(ctx) -> list:
+    """The methods whose result is the key word of the current position: read_nonce(), and whatever method of the class
+    the first key of the decode step in read() comes from."""
+    out = [ctx.repo.func(f"{CLS}.read_nonce")]
+    f = ctx.repo.func(f"{CLS}.read")
+    fn = f.node
+    for c in fn_calls(fn):
+        cal = ctx.rs.resolve_call(f, c)
+        if not (cal.kind == "func" and cal.func is not None and cal.fq == "utils.xor"):
+            continue
+        key = bind_args(c, cal.func.node).get("key")
+        key = strip_cast(key) if key is not None else None
+        if not isinstance(key, ast.Name) or key.id in params(fn):
+            continue
+        for _s, v in reaching_defs(ctx, f, key.id, c):
+            o = origin(fn, v) if v is not None else None
+            g = _self_callee(ctx, f, o) if isinstance(o, ast.Call) else None
+            if g is not None and g not in out:
+                out.append(g)
+    return out
+
+
+def r7(ctx):
+    ms = _instance_methods(ctx)
+    fetchers = _key_fetchers(ctx)
+    t = "cursor restored"
+    for g in fetchers:
+        v, detail, node = _cursor_verdict(ctx, g)
+        name = _mname(g)
+        _emit(ctx, "R7", "CURSOR", g, t, v,
+              f"{name}() fetches the key word of the current position and leaves the underlying cursor where it was: {detail}",
+              f"{name}() is called for the key word of the current position and must leave the underlying cursor where it was, but {detail}",
+              node, unknown_detail=f"{name}() must leave the underlying cursor where it was; cannot be evaluated: {detail}")
+    # other look-behind / peek helpers: methods that are neither part of the io interface nor (helpers of) read() or of a key
+    # fetcher (those are walked in place), and that both seek and read the underlying file
+    covered = {g.fq for g in fetchers}
+    # helpers that the normaliser has inlined into their call sites have been walked there
+    for mod_, st_ in (getattr(ctx.repo, "norm_stats", None) or {}).items():
+        covered |= {f"{mod_}.{str(x).split(' ')[0]}" for x in (st_.get("inlined") or [])}
+    work = list(fetchers) + [m for m in ms if _mname(m) == "read"]
+    while work:
+        m = work.pop()
+        for c in fn_calls(m.node):
+            c2 = _self_callee(ctx, m, c)
+            if c2 is not None and c2.fq not in covered:
+                covered.add(c2.fq)
+                work.append(c2)
+    for m in ms:
+        if _mname(m) in _IO_API or m.fq in covered:
+            continue
+        attrs = {c.func.attr for c in fn_calls(m.node) if isinstance(c.func, ast.Attribute) and _is_raw(m.node, c.func.value)}
+        if "seek" not in attrs or not (attrs & {"read", "read1", "readinto", "readall", "readline"}):
+            continue
+        v, detail, node = _cursor_verdict(ctx, m)
+        if v == "ok":
+            ctx.ob("R7", "CURSOR", m, t, True, f"{_mname(m)}() seeks and reads the underlying file and leaves the cursor where it was: {detail}", node)
+        else:
+            ctx.undecided("R7", "CURSOR", m, t, f"{_mname(m)}() seeks and reads the underlying file; whether it is meant to keep the position is not known ({detail})", node)
 
 
 # ============================================================================================== R4: detection
